@@ -235,6 +235,24 @@ def add_cases(rng, T):
             yield 'add_pwc', list(pwc_on(rng, T, i1)) + near(pwc_on(rng, T, i1)), ['near-breakpoints']
             yield 'add_pwl', list(pwl_on(rng, T, i1)) + near(pwl_on(rng, T, i1)), ['near-breakpoints']
             yield 'add_disc', list(disc_on(rng, T, i1)) + near(disc_on(rng, T, i1)), ['near-breakpoints']
+    # breakpoints that are ADJACENT DOUBLES (one unit in the last place apart): a midpoint or an average of the
+    # two rounds onto one of them. ulp(v) = 2^(floor(log2 v) - 52), exact as a rational.
+    def ulp(v):
+        k = 0
+        while Fr(2) ** (k + 1) <= v:
+            k += 1
+        return Fr(2) ** (k - 52)
+    for i1 in inner:
+        if not i1:
+            continue
+        for sg in (1, -1):
+            def adj(f):
+                f = list(f)
+                f[0] = [f[0][0]] + [v + (ulp(v) if sg > 0 else -ulp(v) / (2 if v == Fr(2) ** int(v).bit_length() / 2 else 1)) for v in f[0][1:-1]] + [f[0][-1]]
+                return f
+            yield 'add_pwc', list(pwc_on(rng, T, i1)) + adj(pwc_on(rng, T, i1)), ['adjacent-doubles']
+            yield 'add_pwl', list(pwl_on(rng, T, i1)) + adj(pwl_on(rng, T, i1)), ['adjacent-doubles']
+            yield 'add_disc', list(disc_on(rng, T, i1)) + adj(disc_on(rng, T, i1)), ['adjacent-doubles']
 
 
 def avg_mul_cases(rng, T, n):
